@@ -31,6 +31,7 @@ fn plan(tier: Tier) -> Vec<Workload> {
         Workload::new("bounds", tier.pick(60_000, 600_000)),
         Workload::new("nonterm", tier.pick(64, 640)),
         Workload::new("datascan", 16),
+        Workload::new("adapter", tier.pick(20_000, 300_000)),
     ]
 }
 
@@ -295,6 +296,102 @@ fn run_case(ctx: &Ctx, index: u64, rep: &mut Report) {
             work_check(ctx, rep, index, &sess, l_tokens, &|| json!({"program": format!("10 READ A + {} DATA lines", n)}));
             rep.count("datascan.programs");
         }
+        "adapter" => {
+            // the same question asked of the Web adapter's start_evaluating / continue_evaluating: the calls the
+            // page makes from its timer. Structural bound per call plus "as many calls as the core needs".
+            use abasic_web::{JsInterpreter, JsInterpreterOutputType, JsInterpreterState};
+            let g = prog::generate(&mut rng, &GenOpts { inputs: true, stops: false, kf_permille: 0, ..GenOpts::default() });
+            let seed = rng.below(1 << 33);
+            let cap = 3000usize;
+            let traced = rng.coin();
+            let lines = g.prog.text_lines();
+            let max_then_else = lines.iter().map(|l| {
+                abasic_core::verif_hooks::tokenize(l, l.find(' ').unwrap_or(0)).map(|t| t.iter().filter(|t| t.debug == "Then" || t.debug == "Else").count()).unwrap_or(0)
+            }).max().unwrap_or(0);
+            // core
+            let mut sess = Session::new();
+            sess.keep_log = false;
+            sess.it.enable_tracing = true;
+            sess.call(Op::Randomize(seed));
+            if exec::load_program(&mut sess, &g.prog).is_err() {
+                return;
+            }
+            let mut core_calls = 1usize;
+            let mut core_replies = 0usize;
+            let mut ok = sess.call(Op::Line("RUN".into())).res.is_ok();
+            while ok && core_calls < cap && !sess.poisoned {
+                match sess.state() {
+                    InterpreterState::Running => {}
+                    InterpreterState::AwaitingInput => {
+                        sess.call(Op::Input(exec::reply_at(&g.replies, core_replies)));
+                        core_replies += 1;
+                    }
+                    _ => break,
+                }
+                ok = sess.call(Op::Cont).res.is_ok();
+                core_calls += 1;
+            }
+            // adapter
+            let case = || json!({"program": lines, "replies": g.replies, "seed": seed});
+            let outcome = crate::util::catch(|| {
+                let mut js = JsInterpreter::default();
+                js.randomize(seed);
+                for l in &lines {
+                    js.start_evaluating(l.clone());
+                    if js.take_latest_error().is_some() {
+                        return Err("load".to_string());
+                    }
+                    js.take_latest_output();
+                }
+                // with TRACE every statement leaves a record (the structural bound applies); without it a run
+                // is "quiet" and only the number of calls tells how many statements went into one call
+                if traced {
+                    js.start_evaluating("TRACE".into());
+                    js.take_latest_output();
+                }
+                let mut calls = 0usize;
+                let mut replies = 0usize;
+                let mut worst: Option<String> = None;
+                js.start_evaluating("RUN".into());
+                loop {
+                    calls += 1;
+                    let outs = js.take_latest_output();
+                    let traces = outs.iter().filter(|o| matches!(o.output_type, JsInterpreterOutputType::Trace)).count();
+                    let prints = outs.iter().filter(|o| matches!(o.output_type, JsInterpreterOutputType::Print)).count();
+                    if (prints > 1 || traces > 1 + max_then_else) && worst.is_none() {
+                        worst = Some(format!("adapter call {} produced {} trace and {} print records (no line of the program can select more than {} statements)", calls, traces, prints, 1 + max_then_else));
+                    }
+                    if js.take_latest_error().is_some() || calls >= cap {
+                        break;
+                    }
+                    match js.get_state() {
+                        JsInterpreterState::Running => {}
+                        JsInterpreterState::AwaitingInput => {
+                            js.provide_input(exec::reply_at(&g.replies, replies));
+                            replies += 1;
+                        }
+                        _ => break,
+                    }
+                    js.continue_evaluating();
+                }
+                Ok((calls, worst))
+            });
+            match outcome {
+                Ok(Ok((calls, worst))) => {
+                    rep.add("adapter.calls", calls as u64);
+                    if let Some(w) = worst {
+                        ctx.violation(rep, "C09", "adapter-call-holds-several-statements", index, w, case());
+                    } else if calls != core_calls && !sess.poisoned {
+                        ctx.violation(rep, "C09", "adapter-call-count", index,
+                            format!("the adapter needed {} start/continue calls for a run the core needs {} calls for", calls, core_calls), case());
+                    } else if calls >= 50 {
+                        rep.nontrivial(hash_str(&g.prog.text()));
+                    }
+                }
+                Ok(Err(_)) => rep.count("adapter.load_rejected"),
+                Err(_) => rep.count("adapter.panic_left_to_C19"),
+            }
+        }
         other => panic!("unknown workload {}", other),
     }
 }
@@ -304,6 +401,7 @@ fn finalize(_tier: Tier, rep: &mut Report) -> Finalize {
         rule: "turns: G-prog programs (with INPUT) run with tracing on; the per-call sequence (trace records, print records, other records, state, result) must equal M-prog's per-turn sequence, which charges one turn per statement and per `:` and counts an IF plus the statement chain it selects as one. \
                bounds: programs of random token lines: per call at most one PRINT record, at most 1 + (#THEN + #ELSE on the line) trace records, all naming the line the call started on. \
                work: for programs without user-defined functions every call's token-cursor reads <= 30 x (tokens on the executing line + 1). nonterm: six non-terminating programs driven 10000 turns with a break + CONT at a random turn. \
+               adapter: G-prog programs run through the Web adapter (JsInterpreter::start_evaluating / continue_evaluating, TRACE on in half of the cases): per call at most one PRINT record and at most 1 + max(#THEN + #ELSE of any line) trace records, and as many calls as the core interpreter needs for the same run. \
                Non-trivial (turns): >= 50 turns compared in a program that executed an IF and a NEXT; every nonterm run counts. Distinct by program hash.".into(),
         floors: vec![
             ("turns_compared".into(), 300_000),
@@ -311,6 +409,7 @@ fn finalize(_tier: Tier, rep: &mut Report) -> Finalize {
             ("calls_work_checked".into(), 200_000),
             ("nonterm.turns".into(), 500_000),
             ("nonterm.breaks".into(), 50),
+            ("adapter.calls".into(), 200_000),
             ("distinct_nontrivial".into(), 300),
         ],
         assumptions: vec![
